@@ -1096,7 +1096,12 @@ class Ctx(_Base):
                 return chr(v)
             if spec == "r":
                 return repr(v)
-            return format(v, spec)
+            try:
+                return format(v, spec)
+            except (ValueError, TypeError):
+                # a token formatted a second time by the code under test (nested format specs): not
+                # renderable - leave a marker; the concrete re-run of the path shows the real text
+                return "<unrenderable:%s>" % spec
         return re.sub("\x01(\\d+):([^\x02]*)\x02", sub, text)
 
     def text_equal(self, s1, s2):
